@@ -123,8 +123,7 @@ class Tracker:
     def free(self, chain=None):
         """txs that may go into a block extending `chain`"""
         chain = self.chain if chain is None else chain
-        return [t for t in self.U.order if not (t in self.conf and self.conf[t] in chain)
-                and not ((t in self.orphan or (t in self.conf and self.conf[t] not in chain)) and self.maybe_unsafe(t))]
+        return [t for t in self.U.order if not (t in self.conf and self.conf[t] in chain)]
 
     def note_tx(self, t, src):
         if t in self.conf:
@@ -132,8 +131,7 @@ class Tracker:
         self.seen.add(t)
 
     def tx_allowed(self, t, src):
-        # local re-submission of an orphaned tx whose stored state may be unsafe: reported defect, excluded
-        return not (src == 2 and t in self.orphan and self.maybe_unsafe(t))
+        return True
 
     def accept(self, b, prev, txids):
         self.chain.append(b)
@@ -155,7 +153,7 @@ class Tracker:
     def can_revert(self, prev):
         i = self.chain.index(prev)
         gone = self.chain[i + 1:]
-        return not any(self.conf.get(t) in gone for t in self.resent)
+        return True
 
     def pick(self, rng, cand, kmax=3):
         chosen = []
@@ -496,7 +494,8 @@ def make_spec(pid, title_rule):
             "modelled, not verified: relevance is a boolean per tx (composition with the filter is C08), hashes are ids, the output fetcher answers in order, merkle tree library (C04), storage back end",
         ],
         "assumptions": ["atomicity at the granularity of processUnconfirmedTx / ProcessBlock / one delay-check iteration for the THEOREMS (the tx repository lock is held across ProcessBlock, the tx state lock across a delay-check iteration and its sending); the interleavings the code must exclude by those locks are replayed on the real code with pause points in the harness (race_delay: conflict between the delay check's read and write; race_send: conflict while the safe update is being sent; race_block_tx: the tx thread handles the tx message of a tx first seen in a block while ProcessBlock is in the middle of it); other interleavings are not explored",
-                        "reorganisations: the trusted headers handler reverts the chain to a held block, then the competing block is processed (op reorg, driven through the real handlers.HeadersHandler); histories are those of flow_valid (TxFlowSpec.v), which follows the run of the model and leaves out four reported defects of the code on reorganisations: (a) local re-submission of an orphaned tx whose stored state is unsafe (delivered safe AND unsafe), (b) an orphaned tx with an unsafe stored state confirmed again before it was announced again (delivered as new, safe: the unsafe flag is lost), (c)/(d) a tx that was sent again while confirmed and whose block is orphaned later (it stays in the mempool: no notification when a block of the new branch confirms it while in sync; a conflict recorded while it was confirmed is forgotten); the generator avoids these patterns conservatively",
+                        "reorganisations: the trusted headers handler reverts the chain to a held block, then the competing block is processed (op reorg, driven through the real handlers.HeadersHandler); histories are those of flow_valid (TxFlowSpec.v): a txid has one body and relevance, a block id one parent / validity / tx list, block txs pairwise disjoint, and (following the run of the model) a block the node accepts holds no transaction that is confirmed in the chain it extends",
+                        "node.load re-enters the stored transactions of the unconfirmed set into the mempool in the iteration order of a Go map; that order only decides the order of the notifications within a later step, the harness normalises it to ascending txid (what the model does) through the real MemPool methods",
                         "wall-clock period of the delay checker (100 ms) is a runtime fact"],
         "rule": (title_rule + "; + reorganisations through the real headers handler (fork below the tip, also refused competing blocks, unknown parent, held / tip headers): confirm -> orphan -> announce again (every source) -> delay check / conflict / confirmation on the new branch / restart in between, deeper forks, second reorganisation") if title_rule else title_rule,
         "accept_failure": accept,
